@@ -4,7 +4,7 @@ turns (real function text from /repo) + (contract data from /verif) into Verus i
 import os
 import re
 
-from rsx import (Undecided, Edit, tokenize, match_close, find_item, strip_logging, fix_visibility,
+from rsx import (Undecided, Edit, tokenize, match_close, find_item, strip_logging, fix_visibility, strip_cfg_feature,
                  _body_open_index, loop_positions, closure_positions, loop_body_open, find_token_seq, stmt_end,
                  OPEN, CLOSE)
 
@@ -538,6 +538,9 @@ def annotate_fn(f, override_requires=None, canary=False, drop_body=False):
     meta = {"key": f.key, "src": f.src, "line": it.line, "sha256": it.sha256, "mode": f.mode,
             "impl_header": it.impl_header, "rules": []}
     text = fix_visibility(text)
+    text, ncfg = strip_cfg_feature(text)
+    if ncfg:
+        meta["rules"].append(f"R14x{ncfg}")
     if f.strip_log:
         text, removed = strip_logging(text)
         if removed:
@@ -763,6 +766,7 @@ def extract_type(t):
     src = open(path).read()
     it = find_item(t.src, src, t.kind, t.name)
     text = fix_visibility(it.text)
+    text, _ncfg = strip_cfg_feature(text)
     # drop doc comments and attributes inside (field docs / serde attrs)
     text = re.sub(r"^\s*///.*$", "", text, flags=re.M)
     text = re.sub(r"^\s*#\[[^\]]*\]\s*$", "", text, flags=re.M)
